@@ -79,7 +79,10 @@ let pattern_op (op : string) (s : int -> z list) (n : int -> z) : string =
      | None -> "0 0"
      | Some i0 ->
        (match ms_match src pat (int_of_z (n 3) <> 0) i0 with
-        | Some ((st, e), _) -> dec_of_z (Z.add st (z_of_int 1)) ^ " " ^ dec_of_z e
+        | Some ((st, e), caps) ->
+          (* after 55bba64: an unfinished capture stops the program *)
+          if List.exists (fun (_, cl) -> int_of_z cl = -1) caps then raise PTrap;
+          dec_of_z (Z.add st (z_of_int 1)) ^ " " ^ dec_of_z e
         | None -> "0 0"))
   | "match" ->
     let src = s 0 and pat = s 1 in
@@ -92,11 +95,18 @@ let pattern_op (op : string) (s : int -> z list) (n : int -> z) : string =
           let strs = if caps = [] then [sub_list src st (Z.sub e st)] else cap_strings src caps in
           "true" ^ String.concat "" (List.map (fun x -> " " ^ hex x) strs)))
   | "gmatch" ->
+    (* after 0222fe3 / 893bab4: lastend rule, '^' is a literal; one iteration = extracted nl_gmatch_next *)
     let src = s 0 and pat = s 1 in
     let len = List.length src in
     let buf = Buffer.create 64 in
-    let rec loop init k first =
-      match ms_match src pat false init with
+    let m p = match run_match nl_cfg src pat Z0 p with
+      | MFound (e, c) -> Some (e, c)
+      | MFail -> None
+      | MError | MTooComplex -> raise PTrap
+      | MUnsafe -> raise PUnsafe
+      | MFuel -> raise PFuel in
+    let rec loop init lastend k first =
+      match nl_gmatch_next (nat_of_int (len + 1)) m src init lastend with
       | None -> true
       | Some ((st, e), caps) ->
         if k + 1 > len + 1 then false
@@ -105,9 +115,9 @@ let pattern_op (op : string) (s : int -> z list) (n : int -> z) : string =
           let strs = if caps = [] then [sub_list src st (Z.sub e st)] else cap_strings src caps in
           if not first then Buffer.add_char buf ' ';
           Buffer.add_string buf (String.concat "," (List.map hex strs));
-          loop e (k + 1) false
+          loop e (Z.add e (z_of_int 1)) (k + 1) false
         end in
-    if loop Z0 0 true then "[" ^ Buffer.contents buf ^ "]" else "!loop"
+    if loop Z0 Z0 0 true then "[" ^ Buffer.contents buf ^ "]" else "!loop"
   | "gsub" | "gsub3" ->
     let src = s 0 and pat = s 1 and repl = s 2 in
     let maxn = if op = "gsub3" then Z.add (zlen src) (z_of_int 1) else n 3 in
@@ -152,18 +162,24 @@ let () =
            | "utf8char" -> res hex (nl_utf8char (n 0))
            | "utf8codepoint" -> res dec_of_z (nl_utf8codepoint (s 0) (n 1) (int_of_z (n 2) = 0))
            | "pack1" ->
-             (* only the formats  [<>=]?[iI]<size>  are modelled *)
+             (* modelled: [<>=]?[iI]<size> and the native integer options b B h H l L j J T (LP64 sizes) *)
              let f = String.concat "" (List.map (fun c -> String.make 1 (Char.chr (int_of_z c))) (s 0)) in
              let little, rest =
                if String.length f > 0 && (f.[0] = '<' || f.[0] = '=') then true, String.sub f 1 (String.length f - 1)
                else if String.length f > 0 && f.[0] = '>' then false, String.sub f 1 (String.length f - 1)
                else true, f in
-             if String.length rest >= 2 && (rest.[0] = 'i' || rest.[0] = 'I')
+             let native = [("b", (1, true)); ("B", (1, false)); ("h", (2, true)); ("H", (2, false)); ("l", (8, true)); ("L", (8, false));
+                           ("j", (8, true)); ("J", (8, false)); ("T", (8, false))] in
+             if List.mem_assoc rest native then begin
+               let (size, sg) = List.assoc rest native in
+               if sg then res hex (nl_pack_int (n 1) (z_of_int size) little) else res hex (nl_pack_uint (n 1) (z_of_int size) little)
+             end
+             else if String.length rest >= 2 && (rest.[0] = 'i' || rest.[0] = 'I')
                 && (String.for_all (fun c -> c >= '0' && c <= '9') (String.sub rest 1 (String.length rest - 1))) then begin
                let size = int_of_string (String.sub rest 1 (String.length rest - 1)) in
                if size < 1 || size > 16 then "?"
-               else if rest.[0] = 'i' then hex (nl_pack_int (n 1) (z_of_int size) little)
-               else hex (nl_pack_uint (n 1) (z_of_int size) little)
+               else if rest.[0] = 'i' then res hex (nl_pack_int (n 1) (z_of_int size) little)
+               else res hex (nl_pack_uint (n 1) (z_of_int size) little)
              end else "?"
            | "unpack" ->
              (* format indexes 1..64 are  <i1 <I1 ... <i16 <I16 >i1 ... >I16 ; init = 1 only *)
